@@ -94,7 +94,12 @@ class ExprMixin(object):
         return m(node)
 
     def ev_bool(self, node):
-        return truthy(self.ev(node))
+        return self.truth(self.ev(node), node)
+
+    def truth(self, v, node=None):
+        if isinstance(v.ty, TRef):
+            return self.bi_bool([v], {}, node).t
+        return truthy(v)
 
     def ev_Constant(self, node):
         v = node.value
@@ -155,6 +160,8 @@ class ExprMixin(object):
         mi = extract.load_module(fr.modname) if fr.modname else None
         if n in self.spec_funcs:
             return Val(TFun(), None, ("spec", n))
+        if n in getattr(self.spec, "lemma_fns", {}):
+            return Val(TFun(), None, ("lemmafn", n))
         if mi is not None:
             if n in mi.functions:
                 return Val(TFun(), None, ("func", mi.name, n))
@@ -248,7 +255,7 @@ class ExprMixin(object):
     def ev_UnaryOp(self, node):
         v = self.ev(node.operand)
         if isinstance(node.op, ast.Not):
-            return vbool(z3.Not(truthy(v)))
+            return vbool(z3.Not(self.truth(v, node)))
         if isinstance(node.op, ast.USub):
             if v.ty == INT:
                 return vint(-v.t)
@@ -273,13 +280,13 @@ class ExprMixin(object):
                 return vbool((z3.And if is_and else z3.Or)(*[v.t for v in vals]))
             out = vals[-1]
             for v in reversed(vals[:-1]):
-                c = truthy(v)
+                c = self.truth(v, node)
                 out = self.ite(c, out, v) if is_and else self.ite(c, v, out)
             return out
         v = None
         for e in node.values[:-1]:
             v = self.ev(e)
-            t = self.ctx.decide(truthy(v))
+            t = self.ctx.decide(self.truth(v, node))
             if is_and and not t:
                 return v
             if (not is_and) and t:
@@ -483,6 +490,14 @@ class ExprMixin(object):
     # ------------------------------------------------------------ comparisons
     def ev_Compare(self, node):
         left = self.ev(node.left)
+        if len(node.ops) == 1 and isinstance(node.ops[0], (ast.Is, ast.IsNot)) and not self.spec_mode \
+                and isinstance(node.left, ast.Name) and isinstance(left.ty, TOpt) \
+                and isinstance(node.comparators[0], ast.Constant) and node.comparators[0].value is None \
+                and node.left.id in self.fr.locals and node.left.id not in self.fr.alias:
+            # flow-sensitive narrowing of an Optional local: decide here and rebind the local
+            isnone = self.ctx.decide(opt_is_none(left))
+            self.fr.locals[node.left.id] = VNONE if isnone else opt_val(left)
+            return vbool(isnone if isinstance(node.ops[0], ast.Is) else not isnone)
         if len(node.ops) == 1:
             right = self.ev(node.comparators[0])
             return vbool(self.compare(node.ops[0], left, right, node))
@@ -747,6 +762,12 @@ class ExprMixin(object):
 
     def norm_index(self, idx, ln, node, what="index"):
         """Python index normalisation with the IndexError check."""
+        if isinstance(idx.ty, TOpt) or idx.ty == NONE:
+            idx = self.unwrap(idx, node)
+        if idx.ty == BOOL:
+            idx = coerce(idx, INT)
+        if idx.ty != INT:
+            raise Unsupported("index of type %s" % idx.ty)
         i = idx.t
         s = z3.simplify(i)
         if z3.is_int_value(s) and s.as_long() >= 0:
@@ -766,8 +787,8 @@ class ExprMixin(object):
         if isinstance(bt, TList):
             if idx.ty == BOOL:
                 idx = coerce(idx, INT)
-            if idx.ty != INT:
-                raise Unsupported("list index of type %s" % idx.ty)
+            if isinstance(idx.ty, TOpt) and self.spec_mode:
+                idx = opt_val(idx)
             if self.spec_mode:
                 return Val(bt.t, z3.Select(list_arr(base), idx.t))
             i = self.norm_index(idx, list_len(base), node)
